@@ -21,14 +21,10 @@ def sampleTable : List (Nat × Bool × Bool) := [
 def lookupSample (n : Nat) : Option (Bool × Bool) :=
   (sampleTable.find? (fun e => e.1 = n)).map (·.2)
 
-/-- proposed repair of F5: `Parser::name` also accepts `_` after the first character.
-`false` = the code as it is. -/
-def underscoreInNames : Bool := false
-
 def driverClass : CharClass where
   alpha c := if c.toNat < 128 then asciiAlpha c else ((lookupSample c.toNat).map (·.1)).getD false
   alnum c :=
-    if c.toNat < 128 then asciiAlnum c || (underscoreInNames && c == '_')
+    if c.toNat < 128 then asciiAlnum c
     else ((lookupSample c.toNat).map (·.2)).getD false
 
 def classifiable (s : List Char) : Bool :=
@@ -37,7 +33,10 @@ def classifiable (s : List Char) : Bool :=
 structure DateFact where
   fmt : List Char
   utc : Bool
+  /-- rendering succeeds -/
   ok : Bool
+  /-- the Utc trial rendering (what the construction-time check asks) succeeds -/
+  probeOk : Bool
   text : List Char
 
 structure Facts where
@@ -50,12 +49,13 @@ structure Facts where
 
 def decDateFact (s : String) : Option DateFact :=
   match splitOnChar ';' s with
-  | [f, u, o, t] => do
+  | [f, u, o, i, t] => do
     let fmt ← decStr f
     let utc ← decBool u
     let ok ← decBool o
+    let probeOk ← decBool i
     let text ← decStr t
-    pure { fmt, utc, ok, text }
+    pure { fmt, utc, ok, probeOk, text }
   | _ => none
 
 def decFacts (fs : List String) : Option Facts :=
@@ -99,8 +99,17 @@ def decCase (fs : List String) : Option Case :=
 def findDate (ds : List DateFact) (fmt : List Char) (utc : Bool) : Option DateFact :=
   ds.find? (fun d => d.fmt = fmt && d.utc = utc)
 
+/-- chrono's verdict on a format (the model takes it to depend on the format only): the trial
+rendering's answer -/
+def renderVerdict (f : Facts) (fmt : List Char) : Bool :=
+  ((f.dates.find? (fun d => d.fmt = fmt)).map (·.probeOk)).getD false
+
+/-- is the modelling assumption met on this case's facts: every rendering (Utc and Local, at encode
+time) answers like the trial rendering -/
+def verdictsAgree (f : Facts) : Bool := f.dates.all (fun d => d.ok == d.probeOk)
+
 def envOf (c : Case) (f : Facts) : Env where
-  strftimeOk fmt utc := ((findDate f.dates fmt utc).map (·.ok)).getD false
+  strftimeOk fmt := renderVerdict f fmt
   dateText fmt utc := ((findDate f.dates fmt utc).map (·.text)).getD []
   threadName := c.thread
   threadId := f.tid
@@ -175,10 +184,10 @@ def modelObs (c : Case) (f : Facts) : String :=
   | .err _ => "model-out-of-fuel"
   | .panic _ => "PANIC:new -" ++ tail
   | .ok pieces =>
-    let chunks := compileL pieces
-    let missing := (timesOfL chunks).filter (fun (fm, u) => (findDate f.dates fm u).isNone)
-    if !widthsSane c.pattern then "new-only -" ++ tail
-    else if !missing.isEmpty then "need-date:" ++ encStr (missing.head!.1) ++ tail
+    let missing := (neededFormatsL pieces).filter (fun fm => (f.dates.find? (fun d => d.fmt = fm)).isNone)
+    let chunks := compileL (Build.current (envOf c f)) pieces
+    if !missing.isEmpty then "need-date:" ++ encStr missing.head! ++ tail
+    else if !widthsSane c.pattern then "new-only -" ++ tail
     else
       match encList (envOf c f) c.record chunks with
       | .ok o => "ok " ++ renderOps f.masked o ++ tail
@@ -222,9 +231,9 @@ def handle : Handler := fun cas obs =>
           let spec := if implOutcome.startsWith "PANIC" then "FAIL:panic at construction;sig=C11/width-overflows-usize" else "ok"
           { model := "PANIC:new -" ++ tail, spec, tags := "parse-panic" :: baseTags }
         | .ok pieces =>
-          let chunks := compileL pieces
+          let chunks := compileL (Build.current (envOf c f)) pieces
           let times := timesOfL chunks
-          let missing := times.filter (fun (fm, u) => (findDate f.dates fm u).isNone)
+          let missing := (neededFormatsL pieces).filter (fun fm => (f.dates.find? (fun d => d.fmt = fm)).isNone)
           let errTags := match firstError chunks with
             | some (_, e) => [errSlug e]
             | none => []
@@ -236,11 +245,11 @@ def handle : Handler := fun cas obs =>
             (if f.masked then ["masked"] else [])
           let trivial := !(c.pattern.any isSpecial)
           let tags := if trivial then "trivial" :: tags else tags
-          if !widthsSane c.pattern then
+          if !missing.isEmpty then
+            { model := "need-date:" ++ encStr missing.head! ++ tail, spec := "ok", tags }
+          else if !widthsSane c.pattern then
             let spec := if implOutcome.startsWith "PANIC" then "FAIL:panic;sig=C11/panic-unexplained" else "ok"
             { model := "new-only -" ++ tail, spec, tags := "wide" :: tags }
-          else if !missing.isEmpty then
-            { model := "need-date:" ++ encStr (missing.head!.1) ++ tail, spec := "ok", tags }
           else
             let encoded := encList env c.record chunks
             let model := match encoded with
@@ -252,7 +261,9 @@ def handle : Handler := fun cas obs =>
               | _ => tags
             -- the executable reading of the statement, on the implementation's observation
             let spec :=
-              if implOutcome.startsWith "PANIC" then
+              if !verdictsAgree f then
+                "FAIL:chrono's render verdict differs between the trial rendering and a rendering;sig=C11/render-verdict-not-a-function-of-the-format"
+              else if implOutcome.startsWith "PANIC" then
                 match encoded with
                 | .panic _ => "FAIL:panic at encode;sig=C11/invalid-strftime"
                 | _ => "FAIL:panic;sig=C11/panic-unexplained"
